@@ -48,9 +48,25 @@ func main() {
 	}
 	fastBy := period - time.Second
 	restart := [][]bnet.Fault{nil, {{Kind: "stop", Node: 0, AtRound: 2}, {Kind: "restart", Node: 0, AtRound: 4}}, {{Kind: "partition", Node: 0, AtRound: 2}, {Kind: "heal", Node: 0, AtRound: 4}}}
+	halt := [][]bnet.Fault{
+		{{Kind: "partition", Node: 0, AtRound: 2}, {Kind: "partition", Node: 1, AtRound: 2}, {Kind: "heal", Node: 0, AtRound: 5}, {Kind: "heal", Node: 1, AtRound: 5}},
+		{{Kind: "partition", Node: 0, AtRound: 2}, {Kind: "partition", Node: 1, AtRound: 2}, {Kind: "heal", Node: 0, AtRound: 6}, {Kind: "heal", Node: 1, AtRound: 6}},
+		{{Kind: "partition", Node: 0, AtRound: 3}, {Kind: "partition", Node: 1, AtRound: 3}, {Kind: "heal", Node: 0, AtRound: 5}, {Kind: "heal", Node: 1, AtRound: 5}},
+	}
+	// staggered heals: one node rejoins one or two rounds after the others, so it runs its catch-up while the
+	// others are a round ahead
+	for _, d := range []uint64{1, 2} {
+		halt = append(halt, []bnet.Fault{{Kind: "partition", Node: 0, AtRound: 2}, {Kind: "partition", Node: 1, AtRound: 2}, {Kind: "heal", Node: 1, AtRound: 5}, {Kind: "heal", Node: 0, AtRound: 5 + d}})
+	}
+	lag := -2 * period
 	var js []job
 	if c.Quick() {
 		js = []job{
+			// the chain halts for 2-4 rounds and then catches up at the catch-up rate: catch-up timers cross ticks
+			{"halted-then-catchup", crypto.DefaultSchemeID, 3, 2, nil, 9, false, 1, nil, 0, halt},
+			{"halted-then-catchup-slow", crypto.DefaultSchemeID, 3, 2, nil, 10, false, 1, nil, 0, halt},
+			// node 0's clock lags two periods behind its peers and it (re)starts with Catchup
+			{"lagging-clock", crypto.DefaultSchemeID, 3, 2, []time.Duration{lag, 0, 0}, 4, false, 1, []uint64{2, 6, 6}, 7, nil},
 			{"level", crypto.DefaultSchemeID, 3, 2, nil, 3, true, 1, nil, 0, nil},
 			{"one-fast", crypto.DefaultSchemeID, 3, 2, []time.Duration{0, fastBy, 0}, 3, true, 1, nil, 0, nil},
 			{"one-fast-unchained", crypto.UnchainedSchemeID, 3, 2, []time.Duration{0, 0, fastBy}, 3, false, 1, nil, 0, nil},
@@ -68,17 +84,27 @@ func main() {
 				job{"behind-far", sc, 3, 2, []time.Duration{0, 0, fastBy}, 4, true, 1, []uint64{1, 6, 6}, 7, nil},
 				job{"restart", sc, 3, 2, []time.Duration{0, 0, fastBy}, 7, true, 1, nil, 0, restart},
 				job{"two-fast-of-4", sc, 4, 3, []time.Duration{0, fastBy, fastBy, 0}, 4, true, 1, nil, 0, nil},
-				job{"two-fast-of-5", sc, 5, 3, []time.Duration{0, fastBy, fastBy, 0, 0}, 3, true, 1, nil, 0, nil})
+				job{"two-fast-of-5", sc, 5, 3, []time.Duration{0, fastBy, fastBy, 0, 0}, 3, true, 1, nil, 0, nil},
+				job{"halted-then-catchup", sc, 3, 2, nil, 10, true, 2, nil, 0, halt},
+				job{"halted-then-catchup-slow", sc, 3, 2, nil, 11, true, 2, nil, 0, halt},
+				job{"lagging-clock", sc, 3, 2, []time.Duration{lag, 0, 0}, 5, true, 2, []uint64{2, 6, 6}, 7, nil},
+				job{"lagging-clock-far", sc, 3, 2, []time.Duration{3 * lag / 2, 0, 0}, 5, false, 1, []uint64{1, 7, 7}, 8, nil})
 		}
 	}
 	var jobs []vlib.E1Job
 	for _, j := range js {
 		k := bnet.NewKeys(j.scheme, j.n, j.t, period, genesis)
+		if j.name == "halted-then-catchup-slow" {
+			k.Catchup = 2 * time.Second
+		}
 		be := make([]string, j.n)
 		honest := make([]bool, j.n)
 		for i := range be {
 			be[i] = "memdb"
-			honest[i] = i >= len(j.offsets) || j.offsets[i] == 0
+			honest[i] = i >= len(j.offsets) || j.offsets[i] <= 0
+			if len(j.offsets) > 0 && j.offsets[0] < 0 && i > 0 {
+				honest[i] = false // relative to the lagging node under test its peers run fast
+			}
 		}
 		sc := &bnet.Scenario{Keys: k, Backends: be, Offsets: j.offsets, Rounds: j.rounds, EarlyTimers: j.early, Prefill: j.prefill, StartRound: j.start, Scripts: j.scripts}
 		jobs = append(jobs, vlib.E1Job{Name: fmt.Sprintf("c04-time/%s/%s/n=%d/t=%d/offsets=%v/rounds=%d/early-timers=%v", j.name, j.scheme, j.n, j.t, j.offsets, j.rounds, j.early), Bound: j.bound,
@@ -113,6 +139,37 @@ func main() {
 			return x
 		}
 		jobs = append(jobs, vlib.E1Job{Name: fmt.Sprintf("c04-future/%s/n=3/t=2/seqs=%d", scID, len(seqs)), Bound: 1,
+			Run: func(devs []vrt.Dev) *explore.Exec { return runV(devs, false) }, Labeled: func(devs []vrt.Dev) *explore.Exec { return runV(devs, true) }})
+	}
+	// c04-lagging: V restarts (Catchup) with its clock in round 4 while its peers hold the chain up to round 8 and
+	// serve it by the real SyncChain routine; the other members also send V valid partials for rounds 5..7 as soon as
+	// V's head allows them to be aggregated — sync and aggregation race on the rounds around V's clock
+	for _, scID := range []string{crypto.DefaultSchemeID, crypto.UnchainedSchemeID} {
+		k := bnet.NewKeys(scID, 3, 2, period, genesis)
+		chain := k.RefChain(8)
+		var seqs [][]bnet.Item
+		mk := func(m int, r uint64) bnet.Item {
+			return bnet.Item{Label: fmt.Sprintf("valid(m%d,r%d)after-head-%d", m, r, r-1), From: m, P: k.Partial(m, r, chain[r-1].Signature), AfterHead: r - 1}
+		}
+		seqs = append(seqs, nil)
+		for _, r := range []uint64{4, 5, 6} {
+			seqs = append(seqs, []bnet.Item{mk(1, r), mk(2, r)}, []bnet.Item{mk(1, r)}, []bnet.Item{mk(1, r), mk(2, r), mk(1, r+1), mk(2, r+1)})
+		}
+		h := &bnet.VAdv{Keys: k, Backend: "memdb", Seqs: seqs, Rounds: 3, Prefill: 3, StartRound: 5, SyncHeight: 8}
+		runV := func(devs []vrt.Dev, labels bool) *explore.Exec {
+			r := h.Run(devs, labels)
+			x := h.Judge(r, "c04/vadv")
+			h.JudgeFuture(r, x, "c04", false)
+			if r.Net != nil {
+				r.Net.Close()
+			}
+			return x
+		}
+		b := 2
+		if c.Quick() {
+			b = 1
+		}
+		jobs = append(jobs, vlib.E1Job{Name: fmt.Sprintf("c04-lagging/%s/n=3/t=2/seqs=%d", scID, len(seqs)), Bound: b,
 			Run: func(devs []vrt.Dev) *explore.Exec { return runV(devs, false) }, Labeled: func(devs []vrt.Dev) *explore.Exec { return runV(devs, true) }})
 	}
 	c.E1Batch(jobs, time.Until(c.DeadlineIn(120*time.Second, 30*time.Minute)))
